@@ -604,6 +604,8 @@ var funcs = []string{
 	"func add = (\n\taddInt\n\taddFloat\n)", "func (T).mul = (\n\t(T).mulInt\n)",
 	"func r() { s := `}\n{`; _ = s }", "func e()", "func (t T) String() string { return \"\" }",
 	"func /* c */ named() {}", "func v(xs ...int) { for x <- xs { println x } }",
+	"func héllo() {}", "func (π *T) 名前() { s := \"日本語\"; _ = s }", "func\tf3() {}", "func/* c */f4() {}", "func\nf5() {\n}",
+	"func(t T) show() {}",
 	"func (p *T) /* c */ name() {\n}", "func /* c */ (r T) name /* c */ () {}", "func (a T) /* op */ - (b T) T { return a }",
 	"func (T) /* c */ .sub = (\n\t(T).subInt\n)", "func (r T) name() /* c */ (int, error) { return 0, nil }",
 	"func g2[K comparable, V any](m map[K]V) /* c */ []K { return nil }", "func (r *T) // eol\nname() {}",
@@ -618,12 +620,13 @@ var stmtsT = []string{
 	"func(a func()) {}(nil)", "func() (int, error) { return 0, nil }()", "x.y = z", "return",
 	"s := \"func f() {}\"", "println 1km", "func() func() { return nil }()()", "for {\n}",
 	"select {}", "onStart => {\n\tsay \"hi\"\n}", "run \"a\", => {\n}",
+	"π := 3.14", "s := \"naïve ∑ 日本\"", "println \"héllo\"",
 	"func() /* c */ (int) { return 1 }()", "func(a int) /* c */ { println a }(1)", "func() /* c */ int { return 1 }()",
 	"func(a, b int) (int, error) /* c */ { return a, nil }(1, 2)", "func /* c */ (a int) /* c */ (r int) { return a }(3)",
 	"func() /* c */ func() { return nil }()()", "g := t.method", "func() /* c */ *T { return nil }().m()",
 	"func(xs ...int) /* c */ []int { return xs }(1, 2)...", "func() // eol\n{ println 1 }()",
 }
-var comments = []string{"# x", "// c", "/* c */", "/* multi\nline */", "//go:generate x", "// func f() {}", "/* } */", "// {"}
+var comments = []string{"// комментарий ✓", "/* 注釈 */", "# x", "// c", "/* c */", "/* multi\nline */", "//go:generate x", "// func f() {}", "/* } */", "// {"}
 var weird = []string{
 	"}", "{", "func", "func (", "func (a) {", ");", "import \"fmt\"", "package main", "\"a;b\"", "`raw\n;{`",
 	"'}'", "func )(", "var", "type", "const (", "}}", "{{", ";", ";;", "(", ")", "func () ()", "\x00", "\xff\xfe", "é := 1",
@@ -673,7 +676,61 @@ func withComments(r *vh.Rand, chunk string) string {
 	return chunk
 }
 
+// well-formed material for scripts that NEED the hoisting (statements first, functions after):
+// format.Source fails on them and succeeds on the rearrangement, which exercises SourceEx's retry.
+var cleanStmts = []string{"println \"a\"", "x := 1", "echo x, 2", "for i <- 0:3 {\n\tprintln i\n}", "y := func() {}", "if x > 0 {\n\tprintln x\n}", "π := 3", "x = 2"}
+var cleanFuncs = []string{"func f() {}", "func g(a, b int) int {\n\treturn a + b\n}", "func (t *T) m() {\n}", "func(t T) show() {}", "func héllo() {\n\tprintln \"hi\"\n}", "func h2[T any](x T) T { return x }", "func (a T) + (b T) T { return a }"}
+
+func genHoistable(r *vh.Rand) []byte {
+	var b bytes.Buffer
+	for i, n := 0, 1+r.Intn(3); i < n; i++ {
+		b.WriteString(r.Pick(cleanStmts) + "\n")
+	}
+	if r.Chance(30) {
+		b.WriteString("\n")
+	}
+	for i, n := 0, 1+r.Intn(3); i < n; i++ {
+		if r.Chance(20) {
+			b.WriteString("// doc\n")
+		}
+		b.WriteString(r.Pick(cleanFuncs) + "\n")
+		if r.Chance(40) {
+			b.WriteString("\n")
+		}
+	}
+	if r.Chance(40) {
+		b.WriteString(r.Pick(cleanStmts) + "\n")
+	}
+	if r.Chance(30) {
+		b.WriteString("type T int\n")
+	}
+	return b.Bytes()
+}
+
 func genScript(r *vh.Rand) []byte {
+	var src []byte
+	if r.Chance(22) {
+		src = genHoistable(r)
+		genCounts["hoistable"]++
+	} else {
+		src = genScriptRaw(r)
+	}
+	if r.Chance(60) {
+		re := respell(r, src)
+		if !bytes.Equal(re, src) {
+			genCounts["respelled"]++
+		}
+		src = re
+	}
+	if !bytes.Contains(src, []byte("func ")) && bytes.Contains(src, []byte("func")) {
+		genCounts["func_never_followed_by_blank"]++
+	}
+	return src
+}
+
+var genCounts = map[string]int{}
+
+func genScriptRaw(r *vh.Rand) []byte {
 	var b bytes.Buffer
 	mode := r.Intn(10)
 	if mode == 0 { // token soup
@@ -835,9 +892,18 @@ func main() {
 		}
 		o.Count("corpus_files")
 		run(b, o, true)
+		if len(b) <= 3000 && r.Fork(2000000+i).Chance(35) {
+			if re := respell(r.Fork(3000000+i), b); !bytes.Equal(re, b) {
+				o.Count("corpus_files_respelled")
+				run(re, o, true)
+			}
+		}
 	}
 	for i := 0; i < f.N; i++ {
 		run(genScript(r.Fork(i)), o, true)
 	}
 	o.Stats["chunks_with_inserted_comments"] = commentsInserted
+	for k, v := range genCounts {
+		o.Stats["gen_"+k] = v
+	}
 }
